@@ -190,7 +190,9 @@ class _Shadow:
         self.vals[o][p] = v
 
     def root_of(self, o):
-        while self.parent[o] is not None:
+        seen = set()
+        while self.parent[o] is not None and o not in seen:
+            seen.add(o)
             o = self.parent[o][0]
         return o
 
@@ -203,6 +205,8 @@ class _Shadow:
         out, todo = [], [t]
         while todo:
             o = todo.pop()
+            if o in out:
+                continue
             out.append(o)
             for p in OBJP:
                 if self.vals[o][p] is not None:
